@@ -1,18 +1,951 @@
-(* C09 — proofs about the unit-propagation / SATSolver model. *)
+(* C09 — proofs about the unit-propagation / SATSolver model (Model/UnitProp.v). *)
 From Coq Require Import Bool NArith List Arith Lia.
 Import ListNotations.
 From RsddV Require Import Base.Util Model.UnitProp.
 
-(* D2 history on the one-clause CNF (¬x0 ∨ ¬x1 ∨ x2) *)
+(* ---------- semantics ---------- *)
+Definition asg := nat -> bool.
+Definition lit_holds (a : asg) (l : lit) : bool := Bool.eqb (a (lvar l)) (lpol l).
+Definition clause_holds (a : asg) (c : clause) : bool := existsb (lit_holds a) c.
+Definition cnf_holds (a : asg) (cls : list clause) : bool := forallb (clause_holds a) cls.
+Definition extends (a : asg) (m : pmodel) : Prop := forall v b, pm_get m v = Some b -> a v = b.
+Definition pm_le (m m' : pmodel) : Prop := forall v b, pm_get m v = Some b -> pm_get m' v = Some b.
+(* a satisfies the CNF and all decisions *)
+Definition sat_with (a : asg) (cls : list clause) (ds : list lit) : Prop :=
+  cnf_holds a cls = true /\ forall d, In d ds -> lit_holds a d = true.
+Definition entailed (cls : list clause) (ds : list lit) (m : pmodel) : Prop :=
+  forall a, sat_with a cls ds -> extends a m.
+
+(* ---------- partial models ---------- *)
+Lemma pm_get_set_inv m v b v' x :
+  pm_get (pm_set m v b) v' = Some x -> (v' = v /\ x = b) \/ pm_get m v' = Some x.
+Proof.
+  unfold pm_get, pm_set. intros H. destruct (Nat.eq_dec v v') as [->|Hne].
+  - destruct (Nat.lt_ge_cases v' (length m)) as [Hlt|Hge].
+    + rewrite nth_set_nth_eq in H by exact Hlt. left. split; congruence.
+    + rewrite nth_overflow in H by (rewrite length_set_nth; exact Hge). discriminate.
+  - rewrite nth_set_nth_neq in H by exact Hne. right. exact H.
+Qed.
+
+Lemma pm_get_set_same m v b : v < length m -> pm_get (pm_set m v b) v = Some b.
+Proof. intros H. unfold pm_get, pm_set. apply nth_set_nth_eq. exact H. Qed.
+
+Lemma pm_get_set_other m v b v' : v <> v' -> pm_get (pm_set m v b) v' = pm_get m v'.
+Proof. intros H. unfold pm_get, pm_set. apply nth_set_nth_neq. exact H. Qed.
+
+Lemma pm_le_refl m : pm_le m m.
+Proof. intros v b H. exact H. Qed.
+Lemma pm_le_trans m1 m2 m3 : pm_le m1 m2 -> pm_le m2 m3 -> pm_le m1 m3.
+Proof. intros H1 H2 v b H. apply H2, H1, H. Qed.
+Lemma pm_le_set m v b : pm_get m v = None -> pm_le m (pm_set m v b).
+Proof.
+  intros Hn v' x H. destruct (Nat.eq_dec v v') as [->|Hne].
+  - congruence.
+  - rewrite pm_get_set_other by exact Hne. exact H.
+Qed.
+
+Lemma extends_set a m v b : extends a m -> a v = b -> extends a (pm_set m v b).
+Proof.
+  intros He Ha v' x H. apply pm_get_set_inv in H. destruct H as [[-> ->]|H].
+  - exact Ha.
+  - apply He, H.
+Qed.
+
+Lemma lit_holds_true a m l : extends a m -> lit_true m l = true -> lit_holds a l = true.
+Proof.
+  unfold lit_true, lit_holds. intros He H. destruct (pm_get m (lvar l)) as [x|] eqn:E; [|discriminate].
+  apply He in E. rewrite E. rewrite eqb_true_iff in *. congruence.
+Qed.
+
+(* a literal that holds in an extension of m is true or unset under m *)
+Lemma holds_true_or_unset a m l :
+  extends a m -> lit_holds a l = true -> lit_true m l = true \/ lit_unset m l = true.
+Proof.
+  unfold lit_true, lit_unset, pm_is_set, lit_holds. intros He H.
+  destruct (pm_get m (lvar l)) as [x|] eqn:E; [|right; reflexivity].
+  left. apply He in E. rewrite <- E. rewrite eqb_true_iff in *. congruence.
+Qed.
+
+Lemma filter_singleton {A} (p : A -> bool) l u x : filter p l = [u] -> In x l -> p x = true -> x = u.
+Proof.
+  intros Hf Hin Hp. assert (Hx : In x (filter p l)) by (apply filter_In; split; assumption).
+  rewrite Hf in Hx. destruct Hx as [Hx|[]]. congruence.
+Qed.
+
+Lemma filter_nil_none {A} (p : A -> bool) l x : filter p l = [] -> In x l -> p x = false.
+Proof.
+  intros Hf Hin. destruct (p x) eqn:Hp; [|reflexivity].
+  assert (Hx : In x (filter p l)) by (apply filter_In; split; assumption). rewrite Hf in Hx. destruct Hx.
+Qed.
+
+(* a clause that holds under an extension of m, has no true literal under m and whose only
+   unassigned occurrence is u, forces u *)
+Lemma unit_forced a m c u :
+  extends a m -> clause_holds a c = true -> clause_sat m c = false -> remaining m c = [u] ->
+  lit_holds a u = true.
+Proof.
+  intros He Hc Hs Hr. unfold clause_holds in Hc. apply existsb_exists in Hc. destruct Hc as [x [Hin Hx]].
+  destruct (holds_true_or_unset a m x He Hx) as [Ht|Hu].
+  - exfalso. assert (Hs' : clause_sat m c = true) by (apply existsb_exists; exists x; split; assumption).
+    congruence.
+  - rewrite <- (filter_singleton _ _ _ _ Hr Hin Hu). exact Hx.
+Qed.
+
+Lemma falsified_no_model a m c :
+  extends a m -> clause_holds a c = true -> clause_sat m c = false -> remaining m c = [] -> False.
+Proof.
+  intros He Hc Hs Hr. unfold clause_holds in Hc. apply existsb_exists in Hc. destruct Hc as [x [Hin Hx]].
+  destruct (holds_true_or_unset a m x He Hx) as [Ht|Hu].
+  - assert (Hs' : clause_sat m c = true) by (apply existsb_exists; exists x; split; assumption). congruence.
+  - rewrite (filter_nil_none _ _ _ Hr Hin) in Hu. discriminate.
+Qed.
+
+(* ---------- watch lists: every entry is a clause index ---------- *)
+Definition wl_ok (n : nat) (ll : list (list nat)) : Prop := Forall (Forall (fun ci => ci < n)) ll.
+Definition w_ok (n : nat) (w : watches) : Prop := wl_ok n (wpos w) /\ wl_ok n (wneg w).
+
+Lemma Forall_set_nth {A} (P : A -> Prop) l i x : Forall P l -> P x -> Forall P (set_nth l i x).
+Proof.
+  revert i; induction l as [|y t IH]; intros [|i] Hl Hx; simpl; auto; inversion Hl; subst; constructor; auto.
+Qed.
+
+Lemma Forall_removelast {A} (P : A -> Prop) l : Forall P l -> Forall P (removelast l).
+Proof.
+  induction l as [|y t IH]; intros H; simpl; auto. inversion H; subst.
+  destruct t; [constructor|]. constructor; auto.
+Qed.
+
+Lemma wl_get_ok n w l : w_ok n w -> Forall (fun ci => ci < n) (wl_get w l).
+Proof.
+  intros [Hp Hn]. unfold wl_get. destruct (lpol l).
+  - destruct (Nat.lt_ge_cases (lvar l) (length (wpos w))) as [H|H].
+    + eapply Forall_forall in Hp; [exact Hp|]. apply nth_In. exact H.
+    + rewrite nth_overflow by exact H. constructor.
+  - destruct (Nat.lt_ge_cases (lvar l) (length (wneg w))) as [H|H].
+    + eapply Forall_forall in Hn; [exact Hn|]. apply nth_In. exact H.
+    + rewrite nth_overflow by exact H. constructor.
+Qed.
+
+Lemma wl_put_ok n w l x : w_ok n w -> Forall (fun ci => ci < n) x -> w_ok n (wl_put w l x).
+Proof.
+  intros [Hp Hn] Hx. unfold wl_put. destruct (lpol l); split; simpl; auto; apply Forall_set_nth; auto.
+Qed.
+
+Lemma swap_remove_ok n l i : Forall (fun ci => ci < n) l -> Forall (fun ci => ci < n) (swap_remove l i).
+Proof.
+  intros H. unfold swap_remove. destruct (rev l) as [|lastx r] eqn:E; [constructor|].
+  assert (Hl : lastx < n).
+  { eapply Forall_forall in H; [exact H|]. apply in_rev. rewrite E. left. reflexivity. }
+  destruct (Nat.eqb (S i) (length l)).
+  - apply Forall_removelast. exact H.
+  - apply Forall_removelast. apply Forall_set_nth; assumption.
+Qed.
+
+Lemma wl_push_ok n w l ci : w_ok n w -> ci < n -> w_ok n (wl_push w l ci).
+Proof.
+  intros Hw Hc. unfold wl_push. apply wl_put_ok; [exact Hw|].
+  apply Forall_app. split; [apply wl_get_ok; exact Hw|]. constructor; [exact Hc|constructor].
+Qed.
+
+Lemma nth_In_clause (cls : list clause) ci : ci < length cls -> In (nth ci cls []) cls.
+Proof. intros H. apply nth_In. exact H. Qed.
+
+Lemma cnf_holds_clause a cls c : cnf_holds a cls = true -> In c cls -> clause_holds a c = true.
+Proof. unfold cnf_holds. rewrite forallb_forall. auto. Qed.
+
+(* ---------- one-step equation of the watcher loop ---------- *)
+Lemma up_loop_S pinned cls f w m a idx :
+  up_loop pinned cls (S f) w m a idx =
+    let wl := wl_get w (lneg a) in
+    if Nat.leb (length wl) idx then URes w (Some m) else
+    let ci := nth idx wl 0 in
+    let c := nth ci cls [] in
+    if clause_sat m c then up_loop pinned cls f w m a (S idx) else
+    match remaining m c with
+    | [] => URes w None
+    | [u] =>
+      match up_decide pinned cls f w m u with
+      | UOutOfFuel => UOutOfFuel
+      | URes w' None => URes w' None
+      | URes w' (Some m') => up_loop pinned cls f w' m' a (S idx)
+      end
+    | cand :: second :: _ =>
+      let consulted := if pinned then (lvar cand, lpol a) else cand in
+      let new_lit := if mem_nat ci (wl_get w consulted) then second else cand in
+      let w1 := wl_put w (lneg a) (swap_remove wl idx) in
+      let w2 := wl_push w1 new_lit ci in
+      up_loop pinned cls f w2 m a idx
+    end.
+Proof. reflexivity. Qed.
+
+Lemma up_decide_S pinned cls f w m a :
+  up_decide pinned cls (S f) w m a =
+    match pm_get m (lvar a) with
+    | Some v => if Bool.eqb v (lpol a) then URes w (Some m) else URes w None
+    | None => up_loop pinned cls f w (pm_set m (lvar a) (lpol a)) a 0
+    end.
+Proof. reflexivity. Qed.
+
+(* ---------- the basic postcondition of decide / the loop: watch entries stay clause indices,
+   the model only grows, keeps its length, and every total assignment that satisfies the CNF,
+   extends the incoming model and makes the decided literal true extends the result (so UNSAT is
+   returned only when there is no such assignment) ---------- *)
+Definition post (cls : list clause) (m : pmodel) (w' : watches) (r : option pmodel) (ok : asg -> Prop) : Prop :=
+  w_ok (length cls) w' /\
+  (forall m', r = Some m' -> length m' = length m /\ pm_le m m') /\
+  (forall a, cnf_holds a cls = true -> extends a m -> ok a -> exists m', r = Some m' /\ extends a m').
+
+Lemma up_basic pinned cls fuel :
+  (forall w m l w' r, w_ok (length cls) w -> up_decide pinned cls fuel w m l = URes w' r ->
+     post cls m w' r (fun a => lit_holds a l = true)) /\
+  (forall w m l idx w' r, w_ok (length cls) w -> up_loop pinned cls fuel w m l idx = URes w' r ->
+     post cls m w' r (fun _ => True)).
+Proof.
+  induction fuel as [|f [IHd IHl]]; [split; intros; discriminate|]. split.
+  - intros w m l w' r Hw H. rewrite up_decide_S in H.
+    destruct (pm_get m (lvar l)) as [x|] eqn:E.
+    + destruct (Bool.eqb x (lpol l)) eqn:Ex; inversion H; subst; (split; [exact Hw|split]).
+      * intros m' Hm'. inversion Hm'; subst. split; [reflexivity|apply pm_le_refl].
+      * intros a _ He _. exists m. split; [reflexivity|exact He].
+      * intros m' Hm'. discriminate.
+      * intros a _ He Hl. exfalso. apply He in E. unfold lit_holds in Hl. rewrite E in Hl. congruence.
+    + apply IHl in H; [|exact Hw]. destruct H as [Hw' [Hm' Ha]]. split; [exact Hw'|split].
+      * intros m' Hr. destruct (Hm' m' Hr) as [Hlen Hle]. unfold pm_set in Hlen. rewrite length_set_nth in Hlen.
+        split; [exact Hlen|]. eapply pm_le_trans; [apply pm_le_set; exact E|exact Hle].
+      * intros a Hc He Hl. apply Ha; auto. apply extends_set; [exact He|].
+        unfold lit_holds in Hl. apply eqb_prop in Hl. exact Hl.
+  - intros w m l idx w' r Hw H. rewrite up_loop_S in H. cbv zeta in H.
+    destruct (Nat.leb (length (wl_get w (lneg l))) idx) eqn:Eidx.
+    { inversion H; subst. split; [exact Hw|split].
+      - intros m' Hm'. inversion Hm'; subst. split; [reflexivity|apply pm_le_refl].
+      - intros a _ He _. exists m. split; [reflexivity|exact He]. }
+    apply Nat.leb_gt in Eidx.
+    set (ci := nth idx (wl_get w (lneg l)) 0) in *.
+    assert (Hci : ci < length cls).
+    { pose proof (wl_get_ok _ _ (lneg l) Hw) as Hall. eapply Forall_forall in Hall; [exact Hall|].
+      apply nth_In. exact Eidx. }
+    set (c := nth ci cls []) in *.
+    assert (Hc : In c cls) by (apply nth_In_clause; exact Hci).
+    destruct (clause_sat m c) eqn:Esat.
+    { apply IHl in H; [exact H|exact Hw]. }
+    destruct (remaining m c) as [|u [|second rest]] eqn:Erem.
+    + inversion H; subst. split; [exact Hw|split].
+      * intros m' Hm'. discriminate.
+      * intros a Hcnf He _. exfalso. eapply falsified_no_model; eauto. eapply cnf_holds_clause; eauto.
+    + destruct (up_decide pinned cls f w m u) as [|w1 [m1|]] eqn:Ed; [discriminate| |].
+      * apply IHd in Ed; [|exact Hw]. destruct Ed as [Hw1 [Hm1 Ha1]].
+        apply IHl in H; [|exact Hw1]. destruct H as [Hw' [Hm' Ha']].
+        destruct (Hm1 m1 eq_refl) as [Hlen1 Hle1].
+        split; [exact Hw'|split].
+        -- intros m' Hr. destruct (Hm' m' Hr) as [Hlen Hle]. split; [congruence|eapply pm_le_trans; eauto].
+        -- intros a Hcnf He _. destruct (Ha1 a Hcnf He) as [m1' [Hr1 He1]].
+           { eapply unit_forced; eauto. eapply cnf_holds_clause; eauto. }
+           inversion Hr1; subst. apply Ha'; auto.
+      * inversion H; subst. apply IHd in Ed; [|exact Hw]. destruct Ed as [Hw1 [Hm1 Ha1]].
+        split; [exact Hw1|split].
+        -- intros m' Hr. discriminate.
+        -- intros a Hcnf He _. destruct (Ha1 a Hcnf He) as [m1' [Hr1 He1]]; [|discriminate].
+           eapply unit_forced; eauto. eapply cnf_holds_clause; eauto.
+    + apply IHl in H; [exact H|].
+      apply wl_push_ok; [|exact Hci]. apply wl_put_ok; [exact Hw|].
+      apply swap_remove_ok. apply wl_get_ok. exact Hw.
+Qed.
+(* ---------- UnitPropagate::new ---------- *)
+Lemma up_new_scan_spec n rest : forall idx w implied,
+  idx + length rest = n -> w_ok n w ->
+  match up_new_scan rest idx w implied with
+  | None => In [] rest
+  | Some (w', implied') => w_ok n w' /\ forall l, In l implied' -> In l implied \/ In [l] rest
+  end.
+Proof.
+  induction rest as [|c rest IH]; intros idx w implied Hn Hw; simpl.
+  - split; [exact Hw|]. intros l H. left. exact H.
+  - destruct c as [|l0 [|l1 c']].
+    + left. reflexivity.
+    + specialize (IH (S idx) w (implied ++ [l0])). simpl in Hn.
+      destruct (up_new_scan rest (S idx) w (implied ++ [l0])) as [[w' implied']|].
+      * destruct IH as [Hw' Hi]; [lia|exact Hw|]. split; [exact Hw'|]. intros l Hl.
+        destruct (Hi l Hl) as [H|H].
+        -- apply in_app_or in H. destruct H as [H|[H|[]]]; [left; exact H|]. subst. right. left. reflexivity.
+        -- right. right. exact H.
+      * right. apply IH; [lia|exact Hw].
+    + simpl in Hn.
+      specialize (IH (S idx) (wl_push (wl_push w l1 idx) l0 idx) implied).
+      assert (Hw2 : w_ok n (wl_push (wl_push w l1 idx) l0 idx)) by (repeat apply wl_push_ok; auto; lia).
+      destruct (up_new_scan rest (S idx) (wl_push (wl_push w l1 idx) l0 idx) implied) as [[w' implied']|].
+      * destruct IH as [Hw' Hi]; [lia|exact Hw2|]. split; [exact Hw'|]. intros l Hl.
+        destruct (Hi l Hl) as [H|H]; [left; exact H|right; right; exact H].
+      * right. apply IH; [lia|exact Hw2].
+Qed.
+
+Lemma up_new_units_spec pinned cls fuel : forall implied w m w' r,
+  w_ok (length cls) w ->
+  (forall l, In l implied -> In [l] cls) ->
+  up_new_units pinned cls fuel w m implied = URes w' r -> post cls m w' r (fun _ => True).
+Proof.
+  induction implied as [|i rest IH]; intros w m w' r Hw Hi H; simpl in H.
+  - inversion H; subst. split; [exact Hw|split].
+    + intros m' Hm'. inversion Hm'; subst. split; [reflexivity|apply pm_le_refl].
+    + intros a _ He _. exists m. split; [reflexivity|exact He].
+  - assert (Hunit : forall a, cnf_holds a cls = true -> lit_holds a i = true).
+    { intros a Hc. pose proof (cnf_holds_clause a cls [i] Hc (Hi i (or_introl eq_refl))) as Hu.
+      unfold clause_holds in Hu. simpl in Hu. rewrite orb_false_r in Hu. exact Hu. }
+    destruct (up_decide pinned cls fuel w m i) as [|w1 [m1|]] eqn:Ed; [discriminate| |].
+    + apply (proj1 (up_basic pinned cls fuel)) in Ed; [|exact Hw]. destruct Ed as [Hw1 [Hm1 Ha1]].
+      apply IH in H; [|exact Hw1|intros l Hl; apply Hi; right; exact Hl]. destruct H as [Hw' [Hm' Ha']].
+      destruct (Hm1 m1 eq_refl) as [Hlen1 Hle1]. split; [exact Hw'|split].
+      * intros m' Hr. destruct (Hm' m' Hr) as [Hlen Hle]. split; [congruence|eapply pm_le_trans; eauto].
+      * intros a Hc He _. destruct (Ha1 a Hc He (Hunit a Hc)) as [m1' [Hr1 He1]]. inversion Hr1; subst.
+        apply Ha'; auto.
+    + inversion H; subst. apply (proj1 (up_basic pinned cls fuel)) in Ed; [|exact Hw].
+      destruct Ed as [Hw1 [Hm1 Ha1]]. split; [exact Hw1|split].
+      * intros m' Hr. discriminate.
+      * intros a Hc He _. destruct (Ha1 a Hc He (Hunit a Hc)) as [m1' [Hr1 _]]. discriminate.
+Qed.
+
+Lemma wl_ok_repeat n k : wl_ok n (repeat [] k).
+Proof. unfold wl_ok. apply Forall_forall. intros x Hx. apply repeat_spec in Hx. subst. constructor. Qed.
+
+Lemma extends_new a n : extends a (pm_new n).
+Proof.
+  intros v b H. unfold pm_get, pm_new in H. rewrite nth_repeat_lt in H. destruct (Nat.ltb v n); discriminate.
+Qed.
+
+Lemma existsb_nil_clause a : clause_holds a [] = false.
+Proof. reflexivity. Qed.
+
+Lemma up_new_spec pinned cls nvars fuel w' r :
+  up_new pinned cls nvars fuel = URes w' r ->
+  (forall m', r = Some m' -> w_ok (length cls) w' /\ length m' = nvars) /\
+  (forall a, cnf_holds a cls = true -> exists m', r = Some m' /\ extends a m').
+Proof.
+  unfold up_new. intros H.
+  pose proof (up_new_scan_spec (length cls) cls 0 (mkW (repeat [] nvars) (repeat [] nvars)) [] eq_refl) as Hs.
+  destruct (up_new_scan cls 0 (mkW (repeat [] nvars) (repeat [] nvars)) []) as [[w implied]|].
+  - destruct Hs as [Hw Hi]; [split; apply wl_ok_repeat|].
+    apply up_new_units_spec in H; [|exact Hw|intros l Hl; destruct (Hi l Hl) as [[]|Hx]; exact Hx].
+    destruct H as [Hw' [Hm' Ha]]. split.
+    + intros m' Hr. split; [exact Hw'|]. destruct (Hm' m' Hr) as [Hlen _]. rewrite Hlen. apply repeat_length.
+    + intros a Hc. apply Ha; auto. apply extends_new.
+  - inversion H; subst. split; [intros m' Hr; discriminate|].
+    intros a Hc. exfalso. assert (He : In [] cls) by (apply Hs; split; apply wl_ok_repeat).
+    pose proof (cnf_holds_clause a cls [] Hc He) as Hx. discriminate.
+Qed.
+
+(* ---------- SATSolver: histories with the decisions that are on the stack ---------- *)
+Fixpoint run_track (pinned : bool) (s : solver) (ds : list lit) (ops : list op) : option (solver * list lit) :=
+  match ops with
+  | [] => Some (s, ds)
+  | Decide a :: rest =>
+    match sat_decide pinned s a with
+    | (s', DSAT) => run_track pinned s' (a :: ds) rest
+    | (s', DUnknown) => run_track pinned s' (a :: ds) rest
+    | (s', DUNSAT) => run_track pinned s' ds rest        (* nothing is pushed *)
+    | (_, DOutOfFuel) => None
+    | (_, DPanic) => None                                 (* label >= num_vars *)
+    end
+  | Pop :: rest =>
+    match ds with
+    | [] => None                                          (* pop without a matching decide *)
+    | _ :: ds' => run_track pinned (sat_pop s) ds' rest
+    end
+  end.
+
+(* the solver reached from [s0] by a valid history, with the decisions on its stack *)
+Definition reaches pinned s0 s ds : Prop := exists ops, run_track pinned s0 [] ops = Some (s, ds).
+
+Lemma run_track_ind pinned (P : solver -> list lit -> Prop) s0 :
+  P s0 [] ->
+  (forall s ds a s' r, P s ds -> sat_decide pinned s a = (s', r) -> r = DSAT \/ r = DUnknown -> P s' (a :: ds)) ->
+  (forall s ds a s', P s ds -> sat_decide pinned s a = (s', DUNSAT) -> P s' ds) ->
+  (forall s d ds, P s (d :: ds) -> P (sat_pop s) ds) ->
+  forall s ds, reaches pinned s0 s ds -> P s ds.
+Proof.
+  intros H0 Hdec Huns Hpop s ds Hr. unfold reaches in Hr. destruct Hr as [ops Hr]. revert Hr.
+  assert (G : forall ops1 s1 ds1, P s1 ds1 -> run_track pinned s1 ds1 ops1 = Some (s, ds) -> P s ds).
+  { clear H0. induction ops1 as [|o rest IH]; intros s1 ds1 HP Hr; simpl in Hr.
+    - inversion Hr; subst. exact HP.
+    - destruct o as [a|].
+      + destruct (sat_decide pinned s1 a) as [s' r] eqn:Ed. destruct r; try discriminate.
+        * eapply IH; [|exact Hr]. eapply Hdec; eauto.
+        * eapply IH; [|exact Hr]. eapply Huns; eauto.
+        * eapply IH; [|exact Hr]. eapply Hdec; eauto.
+      + destruct ds1 as [|d ds1']; [discriminate|]. eapply IH; [|exact Hr]. apply Hpop with d. exact HP. }
+  intros Hr. eapply G; eauto.
+Qed.
+
+(* every frame's model is entailed by the CNF and the decisions below it *)
+Inductive stack_sound (cls : list clause) : list sat_state -> list lit -> Prop :=
+| SS_base st0 bot : entailed cls [] (ss_model st0) -> stack_sound cls [st0; bot] []
+| SS_push st rest d ds : stack_sound cls rest ds -> entailed cls (d :: ds) (ss_model st) ->
+    stack_sound cls (st :: rest) (d :: ds).
+
+Definition sound_inv (cls : list clause) (s : solver) (ds : list lit) : Prop :=
+  s_cnf s = cls /\ w_ok (length cls) (s_w s) /\ stack_sound cls (s_stack s) ds.
+
+Lemma stack_sound_top cls st ds : stack_sound cls st ds ->
+  exists t rest, st = t :: rest /\ entailed cls ds (ss_model t).
+Proof. intros H. inversion H; subst; eauto. Qed.
+
+Lemma sat_with_tail a cls d ds : sat_with a cls (d :: ds) -> sat_with a cls ds /\ lit_holds a d = true.
+Proof. intros [Hc Hd]. split; [split; [exact Hc|intros x Hx; apply Hd; right; exact Hx]|apply Hd; left; reflexivity]. Qed.
+
+Lemma sat_new_sound pinned cls nvars s0 :
+  sat_new pinned cls nvars = NewSome s0 -> sound_inv cls s0 [].
+Proof.
+  unfold sat_new. intros H.
+  destruct (up_new pinned cls nvars (up_fuel nvars cls)) as [|w [state|]] eqn:E; try discriminate.
+  destruct (update_hash_and_sat_set _ _ state) as [h set]. inversion H; subst. clear H.
+  apply up_new_spec in E. destruct E as [Hm Ha]. destruct (Hm state eq_refl) as [Hw Hlen].
+  split; [reflexivity|split; [exact Hw|]]. simpl. constructor. simpl.
+  intros a [Hc _]. destruct (Ha a Hc) as [m' [Hr He]]. inversion Hr; subst. exact He.
+Qed.
+
+Lemma sat_decide_cases pinned s a s' r : sat_decide pinned s a = (s', r) ->
+  (r = DPanic /\ s' = s /\ s_nvars s <= lvar a) \/
+  (lvar a < s_nvars s /\
+   match up_decide pinned (s_cnf s) (up_fuel (s_nvars s) (s_cnf s)) (s_w s) (ss_model (top_state s)) a with
+   | UOutOfFuel => r = DOutOfFuel /\ s' = s
+   | URes w' None => r = DUNSAT /\ s' = mkSolver (s_nvars s) (s_cnf s) w' (s_clauses s) (s_stack s)
+   | URes w' (Some nm) =>
+       let hs := update_hash_and_sat_set (s_clauses s) (top_state s) nm in
+       s' = mkSolver (s_nvars s) (s_cnf s) w' (s_clauses s) (mkSS nm (fst hs) (snd hs) :: s_stack s) /\
+       r = (if Nat.eqb (count_true (snd hs)) (length (s_clauses s)) then DSAT else DUnknown)
+   end).
+Proof.
+  unfold sat_decide. intros H. destruct (Nat.leb (s_nvars s) (lvar a)) eqn:El.
+  - left. inversion H; subst. apply Nat.leb_le in El. auto.
+  - right. apply Nat.leb_gt in El. split; [exact El|].
+    destruct (up_decide pinned (s_cnf s) _ (s_w s) _ a) as [|w' [nm|]].
+    + inversion H; auto.
+    + destruct (update_hash_and_sat_set _ _ nm) as [h set]. inversion H; subst. simpl. auto.
+    + inversion H; auto.
+Qed.
+
+Lemma sound_inv_reach pinned cls nvars s0 s ds :
+  sat_new pinned cls nvars = NewSome s0 -> reaches pinned s0 s ds -> sound_inv cls s ds.
+Proof.
+  intros Hn Hr. revert s ds Hr. apply run_track_ind.
+  - eapply sat_new_sound; eauto.
+  - intros s ds a s' r [Hc [Hw Hs]] Hd Hr. apply sat_decide_cases in Hd.
+    destruct Hd as [[-> _]|[Hl Hd]]; [destruct Hr; discriminate|].
+    destruct (stack_sound_top _ _ _ Hs) as [t [rest [Est Het]]].
+    assert (Etop : top_state s = t) by (unfold top_state; rewrite Est; reflexivity).
+    rewrite Hc, Etop in Hd.
+    destruct (up_decide pinned cls _ (s_w s) (ss_model t) a) as [|w' [nm|]] eqn:Ed.
+    + destruct Hd as [-> _]. destruct Hr; discriminate.
+    + cbv zeta in Hd. destruct Hd as [-> _]. apply (proj1 (up_basic pinned cls _)) in Ed; [|exact Hw].
+      destruct Ed as [Hw' [_ Ha]]. split; [reflexivity|split; [exact Hw'|]]. simpl. constructor; [exact Hs|].
+      simpl. intros a0 Hsat. apply sat_with_tail in Hsat. destruct Hsat as [Hsat Hla].
+      destruct (Ha a0 (proj1 Hsat) (Het a0 Hsat) Hla) as [m' [Hr' He]]. inversion Hr'; subst. exact He.
+    + destruct Hd as [-> _]. destruct Hr; discriminate.
+  - intros s ds a s' [Hc [Hw Hs]] Hd. apply sat_decide_cases in Hd.
+    destruct Hd as [[Hx _]|[Hl Hd]]; [discriminate|].
+    rewrite Hc in Hd.
+    destruct (up_decide pinned cls _ (s_w s) (ss_model (top_state s)) a) as [|w' [nm|]] eqn:Ed.
+    + destruct Hd; discriminate.
+    + cbv zeta in Hd. destruct Hd as [_ Hd]. destruct (Nat.eqb _ _) in Hd; discriminate.
+    + destruct Hd as [_ ->]. apply (proj1 (up_basic pinned cls _)) in Ed; [|exact Hw].
+      destruct Ed as [Hw' _]. split; [reflexivity|split; [exact Hw'|exact Hs]].
+  - intros s d ds [Hc [Hw Hs]]. split; [exact Hc|split; [exact Hw|]]. simpl.
+    inversion Hs; subst. simpl. assumption.
+Qed.
+
+(* ---------- up_sound / unsat_sound ---------- *)
+Theorem up_sound pinned cls nvars s0 s ds :
+  sat_new pinned cls nvars = NewSome s0 -> reaches pinned s0 s ds ->
+  stack_sound cls (s_stack s) ds /\ entailed cls ds (ss_model (top_state s)).
+Proof.
+  intros Hn Hr. destruct (sound_inv_reach _ _ _ _ _ _ Hn Hr) as [_ [_ Hs]]. split; [exact Hs|].
+  destruct (stack_sound_top _ _ _ Hs) as [t [rest [Est Het]]]. unfold top_state. rewrite Est. exact Het.
+Qed.
+
+Theorem unsat_sound_new pinned cls nvars :
+  sat_new pinned cls nvars = NewNone -> forall a, cnf_holds a cls = false.
+Proof.
+  unfold sat_new. intros H a.
+  destruct (up_new pinned cls nvars (up_fuel nvars cls)) as [|w [state|]] eqn:E; try discriminate.
+  - destruct (update_hash_and_sat_set _ _ state). discriminate.
+  - apply up_new_spec in E. destruct E as [_ Ha]. destruct (cnf_holds a cls) eqn:Hc; [|reflexivity].
+    destruct (Ha a Hc) as [m' [Hr _]]. discriminate.
+Qed.
+
+Theorem unsat_sound_decide pinned cls nvars s0 s ds l s' :
+  sat_new pinned cls nvars = NewSome s0 -> reaches pinned s0 s ds ->
+  sat_decide pinned s l = (s', DUNSAT) -> forall a, ~ sat_with a cls (l :: ds).
+Proof.
+  intros Hn Hr Hd a Hsat. destruct (sound_inv_reach _ _ _ _ _ _ Hn Hr) as [Hc [Hw Hs]].
+  destruct (up_sound _ _ _ _ _ _ Hn Hr) as [_ Het].
+  apply sat_decide_cases in Hd. destruct Hd as [[Hx _]|[Hl Hd]]; [discriminate|].
+  rewrite Hc in Hd.
+  destruct (up_decide pinned cls _ (s_w s) (ss_model (top_state s)) l) as [|w' [nm|]] eqn:Ed.
+  - destruct Hd; discriminate.
+  - cbv zeta in Hd. destruct Hd as [_ Hd]. destruct (Nat.eqb _ _) in Hd; discriminate.
+  - apply (proj1 (up_basic pinned cls _)) in Ed; [|exact Hw]. destruct Ed as [_ [_ Ha]].
+    apply sat_with_tail in Hsat. destruct Hsat as [Hsat Hla].
+    destruct (Ha a (proj1 Hsat) (Het a Hsat) Hla) as [m' [Hr' _]]. discriminate.
+Qed.
+
+(* ---------- pop_restores ---------- *)
+(* the immediate form: a successful decide followed by pop leaves the whole stack (every frame's
+   model, hash and satisfied set) and the constant parts as they were; only the watch lists differ *)
+Theorem pop_restores_step pinned s a s' r :
+  sat_decide pinned s a = (s', r) -> r = DSAT \/ r = DUnknown ->
+  s_stack (sat_pop s') = s_stack s /\ s_clauses (sat_pop s') = s_clauses s /\
+  s_cnf (sat_pop s') = s_cnf s /\ s_nvars (sat_pop s') = s_nvars s.
+Proof.
+  intros Hd Hr. apply sat_decide_cases in Hd. destruct Hd as [[-> _]|[_ Hd]]; [destruct Hr; discriminate|].
+  destruct (up_decide pinned (s_cnf s) _ (s_w s) (ss_model (top_state s)) a) as [|w' [nm|]].
+  - destruct Hd as [-> _]. destruct Hr; discriminate.
+  - cbv zeta in Hd. destruct Hd as [-> _]. simpl. auto.
+  - destruct Hd as [-> _]. destruct Hr; discriminate.
+Qed.
+
+(* a decide that reports UNSAT pushes nothing *)
+Theorem unsat_keeps_stack pinned s a s' :
+  sat_decide pinned s a = (s', DUNSAT) -> s_stack s' = s_stack s /\ s_clauses s' = s_clauses s.
+Proof.
+  intros Hd. apply sat_decide_cases in Hd. destruct Hd as [[Hx _]|[_ Hd]]; [discriminate|].
+  destruct (up_decide pinned (s_cnf s) _ (s_w s) (ss_model (top_state s)) a) as [|w' [nm|]].
+  - destruct Hd; discriminate.
+  - cbv zeta in Hd. destruct Hd as [_ Hd]. destruct (Nat.eqb _ _) in Hd; discriminate.
+  - destruct Hd as [_ ->]. simpl. auto.
+Qed.
+
+(* the general form: any history that never pops below its starting depth leaves the frames below
+   untouched; if it ends at its starting depth the whole stack is as before *)
+Lemma run_track_frames pinned : forall ops s ds s' ds' F B,
+  run_track pinned s ds ops = Some (s', ds') -> s_stack s = F ++ B -> length F = length ds ->
+  exists F', s_stack s' = F' ++ B /\ length F' = length ds' /\ s_clauses s' = s_clauses s.
+Proof.
+  induction ops as [|o rest IH]; intros s ds s' ds' F B Hr Hst Hlen; simpl in Hr.
+  - inversion Hr; subst. exists F. auto.
+  - destruct o as [a|].
+    + destruct (sat_decide pinned s a) as [s1 r] eqn:Ed.
+      assert (Hpush : r = DSAT \/ r = DUnknown -> exists t, s_stack s1 = (t :: F) ++ B /\ s_clauses s1 = s_clauses s).
+      { intros Hr'. pose proof Ed as Ed'. apply sat_decide_cases in Ed'.
+        destruct Ed' as [[-> _]|[_ Hd]]; [destruct Hr'; discriminate|].
+        destruct (up_decide pinned (s_cnf s) _ (s_w s) (ss_model (top_state s)) a) as [|w' [nm|]].
+        - destruct Hd as [-> _]. destruct Hr'; discriminate.
+        - cbv zeta in Hd. destruct Hd as [-> _]. simpl. rewrite Hst. eauto.
+        - destruct Hd as [-> _]. destruct Hr'; discriminate. }
+      destruct r; try discriminate.
+      * destruct Hpush as [t [Hs1 Hc1]]; [auto|].
+        destruct (IH _ _ _ _ (t :: F) B Hr Hs1) as [F' [H1 [H2 H3]]]; [simpl; lia|]. exists F'. rewrite H3. auto.
+      * destruct (unsat_keeps_stack _ _ _ _ Ed) as [Hs1 Hc1].
+        destruct (IH _ _ _ _ F B Hr) as [F' [H1 [H2 H3]]]; [congruence|exact Hlen|]. exists F'. rewrite H3. auto.
+      * destruct Hpush as [t [Hs1 Hc1]]; [auto|].
+        destruct (IH _ _ _ _ (t :: F) B Hr Hs1) as [F' [H1 [H2 H3]]]; [simpl; lia|]. exists F'. rewrite H3. auto.
+    + destruct ds as [|d ds1]; [discriminate|]. destruct F as [|t F1]; [discriminate|].
+      destruct (IH _ _ _ _ F1 B Hr) as [F' [H1 [H2 H3]]].
+      * simpl. rewrite Hst. reflexivity.
+      * simpl in Hlen. lia.
+      * exists F'. auto.
+Qed.
+
+Theorem pop_restores pinned s ops s' :
+  run_track pinned s [] ops = Some (s', []) ->
+  s_stack s' = s_stack s /\ s_clauses s' = s_clauses s.
+Proof.
+  intros Hr. destruct (run_track_frames pinned ops s [] s' [] [] (s_stack s) Hr eq_refl eq_refl) as [F' [H1 [H2 H3]]].
+  destruct F'; [|discriminate]. auto.
+Qed.
+(* ---------- the satisfied set and the satisfied flag ---------- *)
+Definition wc_sat (m : pmodel) (wc : wclause) : bool := existsb (fun x => lit_true m (fst x)) wc.
+Definition set_inv (cl : list wclause) (st : sat_state) : Prop :=
+  length (ss_sat st) = length cl /\
+  forall ci, ci < length cl -> nth ci (ss_sat st) false = wc_sat (ss_model st) (nth ci cl []).
+
+Lemma pm_in_lit_true m l : pm_in m (lpol l) (lvar l) = lit_true m l.
+Proof.
+  unfold pm_in, lit_true. destruct (pm_get m (lvar l)) as [x|]; [|reflexivity].
+  destruct x, (lpol l); reflexivity.
+Qed.
+
+Lemma in_pm_diff_pol a b p l :
+  In l (pm_diff_pol a b p) <-> lpol l = p /\ lit_true a l = true /\ lit_true b l = false.
+Proof.
+  unfold pm_diff_pol. rewrite in_map_iff. split.
+  - intros [v [<- Hv]]. apply filter_In in Hv. destruct Hv as [_ Hv]. apply andb_true_iff in Hv.
+    destruct Hv as [H1 H2]. apply negb_true_iff in H2. rewrite <- !pm_in_lit_true. simpl. auto.
+  - intros [Hp [H1 H2]]. exists (lvar l). split; [destruct l; simpl in *; congruence|].
+    apply filter_In. rewrite <- pm_in_lit_true in H1, H2. rewrite Hp in H1, H2. split.
+    + apply in_seq. split; [lia|]. simpl. unfold pm_in, pm_get in H1.
+      destruct (Nat.lt_ge_cases (lvar l) (length a)) as [H|H]; [exact H|].
+      rewrite nth_overflow in H1 by exact H. discriminate.
+    + rewrite H1, H2. reflexivity.
+Qed.
+
+Lemma in_pm_difference a b l :
+  In l (pm_difference a b) <-> lit_true a l = true /\ lit_true b l = false.
+Proof.
+  unfold pm_difference. rewrite in_app_iff, !in_pm_diff_pol. split.
+  - intros [[_ H]|[_ H]]; exact H.
+  - intros H. destruct (lpol l) eqn:E; [right|left]; auto.
+Qed.
+
+Lemma lit_true_le m m' l : pm_le m m' -> lit_true m l = true -> lit_true m' l = true.
+Proof.
+  unfold lit_true. intros Hle H. destruct (pm_get m (lvar l)) as [x|] eqn:E; [|discriminate].
+  rewrite (Hle _ _ E). exact H.
+Qed.
+
+Lemma in_containing cl l ci : In ci (containing cl l) <-> ci < length cl /\ wc_has l (nth ci cl []) = true.
+Proof.
+  unfold containing. rewrite filter_In, in_seq. split; intros [H1 H2]; split; auto; lia.
+Qed.
+
+Lemma lit_eqb_eq a b : lit_eqb a b = true <-> a = b.
+Proof.
+  unfold lit_eqb. destruct a as [v p], b as [v' p']. simpl. rewrite andb_true_iff, Nat.eqb_eq, eqb_true_iff.
+  split; [intros [-> ->]; reflexivity|intros H; inversion H; auto].
+Qed.
+
+Lemma wc_has_in l wc : wc_has l wc = true <-> In l (map fst wc).
+Proof.
+  unfold wc_has. rewrite existsb_exists, in_map_iff. split.
+  - intros [x [Hx He]]. apply lit_eqb_eq in He. exists x. auto.
+  - intros [x [He Hx]]. exists x. split; [exact Hx|]. apply lit_eqb_eq. auto.
+Qed.
+
+Lemma nth_set_nth_bool (set : list bool) ci cj : ci < length set ->
+  nth cj (set_nth set ci true) false = nth cj set false || Nat.eqb cj ci.
+Proof.
+  intros H. destruct (Nat.eqb cj ci) eqn:E.
+  - apply Nat.eqb_eq in E. subst. rewrite nth_set_nth_eq by exact H. rewrite orb_true_r. reflexivity.
+  - apply Nat.eqb_neq in E. rewrite nth_set_nth_neq by congruence. rewrite orb_false_r. reflexivity.
+Qed.
+
+Lemma case2_clause_set cl top h set ci : ci < length set ->
+  length (snd (case2_clause cl top (h, set) ci)) = length set /\
+  forall cj, nth cj (snd (case2_clause cl top (h, set) ci)) false = nth cj set false || Nat.eqb cj ci.
+Proof.
+  intros H. unfold case2_clause. destruct (nth ci set false) eqn:E; simpl.
+  - split; [reflexivity|]. intros cj. destruct (Nat.eqb cj ci) eqn:E2.
+    + apply Nat.eqb_eq in E2. subst. rewrite E. reflexivity.
+    + rewrite orb_false_r. reflexivity.
+  - split; [apply length_set_nth|]. intros cj. apply nth_set_nth_bool. exact H.
+Qed.
+
+Lemma case2_fold_set cl top : forall cis acc,
+  Forall (fun ci => ci < length (snd acc)) cis ->
+  length (snd (fold_left (case2_clause cl top) cis acc)) = length (snd acc) /\
+  forall cj, nth cj (snd (fold_left (case2_clause cl top) cis acc)) false =
+             nth cj (snd acc) false || existsb (Nat.eqb cj) cis.
+Proof.
+  induction cis as [|ci rest IH]; intros [h set] Hall; cbn [fold_left existsb snd].
+  - split; [reflexivity|]. intros cj. rewrite orb_false_r. reflexivity.
+  - inversion Hall as [|? ? Hci Hrest]; subst. simpl in Hci.
+    destruct (case2_clause_set cl top h set ci Hci) as [Hlen Hnth].
+    destruct (case2_clause cl top (h, set) ci) as [h1 set1] eqn:E. simpl in Hlen, Hnth.
+    destruct (IH (h1, set1)) as [Hlen2 Hnth2].
+    { simpl. rewrite Hlen. exact Hrest. }
+    simpl in Hlen2, Hnth2. split; [congruence|]. intros cj. rewrite Hnth2, Hnth, orb_assoc. reflexivity.
+Qed.
+
+Lemma case2_lits_set cl top : forall diff acc, length (snd acc) = length cl ->
+  length (snd (fold_left (case2_lit cl top) diff acc)) = length cl /\
+  forall cj, nth cj (snd (fold_left (case2_lit cl top) diff acc)) false =
+             nth cj (snd acc) false || existsb (fun l => existsb (Nat.eqb cj) (containing cl l)) diff.
+Proof.
+  induction diff as [|l rest IH]; intros acc Hlen; simpl.
+  - split; [exact Hlen|]. intros cj. rewrite orb_false_r. reflexivity.
+  - unfold case2_lit at 2 4.
+    destruct (case2_fold_set cl top (containing cl l) acc) as [Hlen1 Hnth1].
+    { apply Forall_forall. intros ci Hci. apply in_containing in Hci. lia. }
+    destruct (IH (fold_left (case2_clause cl top) (containing cl l) acc)) as [Hlen2 Hnth2]; [congruence|].
+    split; [exact Hlen2|]. intros cj. rewrite Hnth2, Hnth1, orb_assoc. reflexivity.
+Qed.
+
+Lemma existsb_eqb_in cj l : existsb (Nat.eqb cj) l = true <-> In cj l.
+Proof.
+  rewrite existsb_exists. split.
+  - intros [x [Hx He]]. apply Nat.eqb_eq in He. subst. exact Hx.
+  - intros H. exists cj. split; [exact H|apply Nat.eqb_refl].
+Qed.
+
+Lemma bool_eq_iff (a b : bool) : (a = true <-> b = true) -> a = b.
+Proof. destruct a, b; intros [H1 H2]; try reflexivity; [symmetry; apply H1; reflexivity|apply H2; reflexivity]. Qed.
+
+Lemma update_set_inv cl top nm :
+  set_inv cl top -> pm_le (ss_model top) nm ->
+  set_inv cl (mkSS nm (fst (update_hash_and_sat_set cl top nm)) (snd (update_hash_and_sat_set cl top nm))).
+Proof.
+  intros [Hlen Hnth] Hle. unfold update_hash_and_sat_set.
+  destruct (case2_lits_set cl (ss_model top) (pm_difference nm (ss_model top)) (ss_hash top, ss_sat top) Hlen)
+    as [Hlen2 Hnth2].
+  destruct (fold_left (case2_lit cl (ss_model top)) (pm_difference nm (ss_model top)) (ss_hash top, ss_sat top))
+    as [h set] eqn:E. simpl in *. split; [exact Hlen2|]. intros ci Hci. rewrite Hnth2, (Hnth ci Hci).
+  apply bool_eq_iff. rewrite orb_true_iff. unfold wc_sat. rewrite !existsb_exists. split.
+  - intros [[x [Hx Ht]]|[l [Hl Hc]]].
+    + exists x. split; [exact Hx|]. eapply lit_true_le; eauto.
+    + apply existsb_eqb_in, in_containing in Hc. destruct Hc as [_ Hc]. apply wc_has_in, in_map_iff in Hc.
+      destruct Hc as [x [Hfx Hx]]. exists x. split; [exact Hx|]. rewrite Hfx.
+      apply in_pm_difference in Hl. tauto.
+  - intros [x [Hx Ht]]. destruct (lit_true (ss_model top) (fst x)) eqn:Eold.
+    + left. exists x. auto.
+    + right. exists (fst x). split; [apply in_pm_difference; auto|].
+      apply existsb_eqb_in, in_containing. split; [exact Hci|]. apply wc_has_in, in_map. exact Hx.
+Qed.
+
+Lemma count_true_all l : count_true l = length l <-> forall i, i < length l -> nth i l false = true.
+Proof.
+  unfold count_true. induction l as [|b t IH]; simpl.
+  - split; [intros _ i Hi; lia|reflexivity].
+  - assert (Hle : forall t : list bool, count (fun b => b) t <= length t).
+    { intros t0. induction t0 as [|b0 t0 IH0]; simpl; [lia|destruct b0; lia]. }
+    destruct b; simpl.
+    + split.
+      * intros H [|i] Hi; [reflexivity|]. apply IH; lia.
+      * intros H. f_equal. apply IH. intros i Hi. apply (H (S i)). lia.
+    + split; [intros H; pose proof (Hle t); lia|]. intros H. specialize (H 0 ltac:(lia)). discriminate.
+Qed.
+
+Definition flag_inv (s : solver) : Prop := Forall (set_inv (s_clauses s)) (s_stack s).
+
+Lemma set_inv_bottom cl n : set_inv cl (mkSS (pm_new n) 1%N (repeat false (length cl))).
+Proof.
+  split; simpl; [apply repeat_length|]. intros ci Hci. rewrite nth_repeat_lt.
+  assert (H : wc_sat (pm_new n) (nth ci cl []) = false).
+  { unfold wc_sat. destruct (existsb _ _) eqn:E; [|reflexivity]. apply existsb_exists in E.
+    destruct E as [x [_ Hx]]. unfold lit_true, pm_get, pm_new in Hx. rewrite nth_repeat_lt in Hx.
+    destruct (Nat.ltb _ _); discriminate. }
+  rewrite H. destruct (Nat.ltb ci (length cl)); reflexivity.
+Qed.
+
+Lemma pm_le_new n m : pm_le (pm_new n) m.
+Proof.
+  intros v b H. unfold pm_get, pm_new in H. rewrite nth_repeat_lt in H. destruct (Nat.ltb v n); discriminate.
+Qed.
+
+Lemma run_track_app pinned : forall ops s ds s1 ds1 ops2,
+  run_track pinned s ds ops = Some (s1, ds1) ->
+  run_track pinned s ds (ops ++ ops2) = run_track pinned s1 ds1 ops2.
+Proof.
+  induction ops as [|o rest IH]; intros s ds s1 ds1 ops2 H; simpl in *.
+  - inversion H; subst. reflexivity.
+  - destruct o as [a|].
+    + destruct (sat_decide pinned s a) as [s' r]. destruct r; try discriminate; apply IH; exact H.
+    + destruct ds as [|d ds']; [discriminate|]. apply IH. exact H.
+Qed.
+
+Lemma reaches_step pinned s0 s ds o s' ds' :
+  reaches pinned s0 s ds -> run_track pinned s ds [o] = Some (s', ds') -> reaches pinned s0 s' ds'.
+Proof.
+  intros [ops H] Ho. exists (ops ++ [o]). rewrite (run_track_app _ _ _ _ _ _ _ H). exact Ho.
+Qed.
+
+(* induction over reachable states, with reachability available in the step cases *)
+Lemma reach_ind pinned (P : solver -> list lit -> Prop) s0 :
+  P s0 [] ->
+  (forall s ds a s' r, reaches pinned s0 s ds -> P s ds -> sat_decide pinned s a = (s', r) ->
+     r = DSAT \/ r = DUnknown -> P s' (a :: ds)) ->
+  (forall s ds a s', reaches pinned s0 s ds -> P s ds -> sat_decide pinned s a = (s', DUNSAT) -> P s' ds) ->
+  (forall s d ds, reaches pinned s0 s (d :: ds) -> P s (d :: ds) -> P (sat_pop s) ds) ->
+  forall s ds, reaches pinned s0 s ds -> P s ds.
+Proof.
+  intros H0 Hdec Huns Hpop s ds Hr.
+  enough (G : reaches pinned s0 s ds /\ P s ds) by tauto.
+  revert s ds Hr. apply run_track_ind.
+  - split; [exists []; reflexivity|exact H0].
+  - intros s ds a s' r [Hr HP] Hd Hres. split; [|eapply Hdec; eauto].
+    eapply reaches_step with (o := Decide a); [exact Hr|]. simpl. rewrite Hd. destruct Hres; subst; reflexivity.
+  - intros s ds a s' [Hr HP] Hd. split; [|eapply Huns; eauto].
+    eapply reaches_step with (o := Decide a); [exact Hr|]. simpl. rewrite Hd. reflexivity.
+  - intros s d ds [Hr HP]. split; [|eapply Hpop; eauto].
+    eapply reaches_step with (o := Pop); [exact Hr|]. reflexivity.
+Qed.
+
+Lemma sat_decide_push pinned s a s' r :
+  sat_decide pinned s a = (s', r) -> r = DSAT \/ r = DUnknown ->
+  exists w' nm, lvar a < s_nvars s /\
+    up_decide pinned (s_cnf s) (up_fuel (s_nvars s) (s_cnf s)) (s_w s) (ss_model (top_state s)) a
+      = URes w' (Some nm) /\
+    s' = mkSolver (s_nvars s) (s_cnf s) w' (s_clauses s)
+           (mkSS nm (fst (update_hash_and_sat_set (s_clauses s) (top_state s) nm))
+                    (snd (update_hash_and_sat_set (s_clauses s) (top_state s) nm)) :: s_stack s) /\
+    r = (if Nat.eqb (count_true (snd (update_hash_and_sat_set (s_clauses s) (top_state s) nm)))
+                    (length (s_clauses s)) then DSAT else DUnknown).
+Proof.
+  intros Hd Hr. apply sat_decide_cases in Hd. destruct Hd as [[-> _]|[Hl Hd]]; [destruct Hr; discriminate|].
+  destruct (up_decide pinned (s_cnf s) _ (s_w s) (ss_model (top_state s)) a) as [|w' [nm|]].
+  - destruct Hd as [-> _]. destruct Hr; discriminate.
+  - cbv zeta in Hd. destruct Hd as [-> ->]. exists w', nm. auto.
+  - destruct Hd as [-> _]. destruct Hr; discriminate.
+Qed.
+
+Lemma sat_decide_unsat pinned s a s' :
+  sat_decide pinned s a = (s', DUNSAT) ->
+  exists w', lvar a < s_nvars s /\
+    up_decide pinned (s_cnf s) (up_fuel (s_nvars s) (s_cnf s)) (s_w s) (ss_model (top_state s)) a
+      = URes w' None /\
+    s' = mkSolver (s_nvars s) (s_cnf s) w' (s_clauses s) (s_stack s).
+Proof.
+  intros Hd. apply sat_decide_cases in Hd. destruct Hd as [[Hx _]|[Hl Hd]]; [discriminate|].
+  destruct (up_decide pinned (s_cnf s) _ (s_w s) (ss_model (top_state s)) a) as [|w' [nm|]].
+  - destruct Hd; discriminate.
+  - cbv zeta in Hd. destruct Hd as [_ Hd]. destruct (Nat.eqb _ _) in Hd; discriminate.
+  - destruct Hd as [_ ->]. exists w'. auto.
+Qed.
+
+Lemma flag_inv_reach pinned cls nvars s0 s ds :
+  sat_new pinned cls nvars = NewSome s0 -> reaches pinned s0 s ds ->
+  flag_inv s /\ s_clauses s = sat_clauses_of cls.
+Proof.
+  intros Hn Hr. revert s ds Hr. apply reach_ind.
+  - unfold sat_new in Hn.
+    destruct (up_new pinned cls nvars (up_fuel nvars cls)) as [|w [state|]]; try discriminate.
+    pose proof (update_set_inv (sat_clauses_of cls)
+      (mkSS (pm_new nvars) 1%N (repeat false (length (sat_clauses_of cls)))) state
+      (set_inv_bottom _ _) (pm_le_new _ _)) as Hu.
+    destruct (update_hash_and_sat_set _ _ state) as [h set]. inversion Hn; subst. simpl in *.
+    split; [|reflexivity]. unfold flag_inv. simpl. constructor; [exact Hu|].
+    constructor; [apply set_inv_bottom|constructor].
+  - intros s ds a s' r Hr [Hf Hcl] Hd Hres.
+    destruct (sound_inv_reach _ _ _ _ _ _ Hn Hr) as [Hc [Hw Hs]].
+    destruct (sat_decide_push _ _ _ _ _ Hd Hres) as [w' [nm [Hl [Ed [-> _]]]]].
+    rewrite Hc in Ed. apply (proj1 (up_basic pinned cls _)) in Ed; [|exact Hw].
+    destruct Ed as [_ [Hm _]]. destruct (Hm nm eq_refl) as [_ Hle].
+    split; [|exact Hcl]. unfold flag_inv in *. simpl. constructor; [|exact Hf].
+    apply update_set_inv; [|exact Hle].
+    destruct (stack_sound_top _ _ _ Hs) as [t [rest [Est _]]]. unfold top_state. rewrite Est.
+    rewrite Est in Hf. inversion Hf; subst. assumption.
+  - intros s ds a s' Hr [Hf Hcl] Hd. destruct (sat_decide_unsat _ _ _ _ Hd) as [w' [_ [_ ->]]].
+    split; [exact Hf|exact Hcl].
+  - intros s d ds Hr [Hf Hcl]. split; [|exact Hcl]. unfold flag_inv in *. simpl.
+    destruct (s_stack s); [constructor|]. inversion Hf; subst. assumption.
+Qed.
+
+(* same members => same verdicts *)
+Lemma in_insert_by {A} (le : A -> A -> bool) x y l : In y (insert_by le x l) <-> y = x \/ In y l.
+Proof.
+  induction l as [|z t IH]; simpl.
+  - split; [intros [H|[]]; auto|intros [H|[]]; auto].
+  - destruct (le x z); simpl; [split; intros [H|H]; auto|].
+    rewrite IH. split; [intros [H|[H|H]]; auto|intros [H|[H|H]]; auto].
+Qed.
+
+Lemma in_sort_by {A} (le : A -> A -> bool) y l : In y (sort_by le l) <-> In y l.
+Proof.
+  unfold sort_by. induction l as [|x t IH]; simpl; [tauto|].
+  rewrite in_insert_by, IH. split; intros [H|H]; auto.
+Qed.
+
+Lemma in_dedup y l : In y (dedup l) <-> In y l.
+Proof.
+  induction l as [|x t IH]; [simpl; tauto|].
+  change (dedup (x :: t)) with (match t with [] => [x] | z :: _ => if lit_eqb x z then dedup t else x :: dedup t end).
+  destruct t as [|z t'].
+  - simpl. tauto.
+  - destruct (lit_eqb x z) eqn:E.
+    + apply lit_eqb_eq in E. subst z. rewrite IH. simpl. tauto.
+    + simpl In at 1. rewrite IH. simpl. tauto.
+Qed.
+
+Lemma in_norm_clause y c : In y (norm_clause c) <-> In y c.
+Proof. unfold norm_clause. rewrite in_dedup, in_sort_by. tauto. Qed.
+
+Lemma existsb_ext_in {A} (p q : A -> bool) l l' :
+  (forall x, In x l <-> In x l') -> (forall x, p x = q x) -> existsb p l = existsb q l'.
+Proof.
+  intros Hm Hp. apply bool_eq_iff. rewrite !existsb_exists. split; intros [x [Hx Hpx]]; exists x.
+  - split; [apply Hm; exact Hx|rewrite <- Hp; exact Hpx].
+  - split; [apply Hm; exact Hx|rewrite Hp; exact Hpx].
+Qed.
+
+Lemma tautological_norm c : tautological (norm_clause c) = tautological c.
+Proof.
+  unfold tautological. apply existsb_ext_in; [intros y; apply in_norm_clause|].
+  intros x. apply existsb_ext_in; [intros y; apply in_norm_clause|reflexivity].
+Qed.
+
+Lemma clause_sat_norm m c : clause_sat m (norm_clause c) = clause_sat m c.
+Proof. unfold clause_sat. apply existsb_ext_in; [intros y; apply in_norm_clause|reflexivity]. Qed.
+
+Lemma weigh_clause_fst c : forall st, map fst (fst (weigh_clause c st)) = c.
+Proof.
+  induction c as [|l t IH]; intros st; cbn [weigh_clause]; [reflexivity|].
+  destruct (prime_next st) as [p st1]. specialize (IH st1). destruct (weigh_clause t st1) as [r st2].
+  simpl in *. rewrite IH. reflexivity.
+Qed.
+
+Lemma weigh_fst cls : forall st, map (map fst) (weigh cls st) = cls.
+Proof.
+  induction cls as [|c t IH]; intros st; cbn [weigh]; [reflexivity|].
+  pose proof (weigh_clause_fst c st) as H. destruct (weigh_clause c st) as [wc st1]. simpl in *.
+  rewrite H, IH. reflexivity.
+Qed.
+
+Lemma wc_sat_clause_sat m wc : wc_sat m wc = clause_sat m (map fst wc).
+Proof. unfold wc_sat, clause_sat. induction wc as [|x t IH]; simpl; [reflexivity|]. rewrite IH. reflexivity. Qed.
+
+(* every non-tautological clause of the CNF has a true literal *)
+Definition all_nontaut_sat (cls : list clause) (m : pmodel) : Prop :=
+  forall c, In c cls -> tautological c = false -> clause_sat m c = true.
+
+Lemma all_wc_sat_iff cls m :
+  (forall wc, In wc (sat_clauses_of cls) -> wc_sat m wc = true) <-> all_nontaut_sat cls m.
+Proof.
+  unfold sat_clauses_of, all_nontaut_sat.
+  set (L := filter (fun c => negb (tautological c)) (map norm_clause cls)).
+  pose proof (weigh_fst L 2%N) as Hw. split.
+  - intros H c Hc Ht.
+    assert (HL : In (norm_clause c) L).
+    { apply filter_In. split; [apply in_map; exact Hc|]. rewrite tautological_norm, Ht. reflexivity. }
+    rewrite <- Hw in HL. apply in_map_iff in HL. destruct HL as [wc [Hfst Hwc]].
+    specialize (H wc Hwc). rewrite wc_sat_clause_sat, Hfst, clause_sat_norm in H. exact H.
+  - intros H wc Hwc. assert (HL : In (map fst wc) L) by (rewrite <- Hw; apply in_map; exact Hwc).
+    apply filter_In in HL. destruct HL as [Hin Ht]. apply in_map_iff in Hin. destruct Hin as [c [Hn Hc]].
+    rewrite wc_sat_clause_sat, <- Hn, clause_sat_norm. apply H; [exact Hc|].
+    rewrite <- Hn, tautological_norm in Ht. apply negb_true_iff in Ht. exact Ht.
+Qed.
+
+Theorem sat_flag_iff pinned cls nvars s0 s ds :
+  sat_new pinned cls nvars = NewSome s0 -> reaches pinned s0 s ds ->
+  (sat_is_sat s = true <-> all_nontaut_sat cls (ss_model (top_state s))).
+Proof.
+  intros Hn Hr. destruct (flag_inv_reach _ _ _ _ _ _ Hn Hr) as [Hf Hcl].
+  destruct (sound_inv_reach _ _ _ _ _ _ Hn Hr) as [_ [_ Hs]].
+  destruct (stack_sound_top _ _ _ Hs) as [t [rest [Est _]]].
+  unfold sat_is_sat, top_state. rewrite Est. unfold flag_inv in Hf. rewrite Est in Hf.
+  inversion Hf as [|? ? [Hlen Hnth] _]; subst.
+  rewrite <- all_wc_sat_iff, <- Hcl, Nat.eqb_eq, <- Hlen, count_true_all. split.
+  - intros H wc Hwc. apply In_nth with (d := []) in Hwc. destruct Hwc as [ci [Hci <-]].
+    rewrite <- Hnth by exact Hci. apply H. lia.
+  - intros H i Hi. rewrite Hnth by lia. apply H. apply nth_In. lia.
+Qed.
+
+(* DecisionResult::SAT is returned exactly when is_sat() holds afterwards *)
+Theorem decide_sat_iff_is_sat pinned s a s' r :
+  sat_decide pinned s a = (s', r) -> r = DSAT \/ r = DUnknown -> (r = DSAT <-> sat_is_sat s' = true).
+Proof.
+  intros Hd Hres. destruct (sat_decide_push _ _ _ _ _ Hd Hres) as [w' [nm [_ [_ [-> ->]]]]].
+  unfold sat_is_sat, top_state. simpl. destruct (Nat.eqb _ _); split; auto; discriminate.
+Qed.
+
+(* ---------- D2: the pinned replacement-watch test misses a unit; the repaired one does not ---------- *)
 Definition d2_cnf : list clause := [[(0, false); (1, false); (2, true)]].
 Definition d2_hist : list op := [Decide (0, true); Pop; Decide (2, false); Decide (0, true)].
-Definition final_model (pinned : bool) (raw : list clause) (h : list op) : option pmodel :=
+Definition final_state (pinned : bool) (raw : list clause) (h : list op) : option (pmodel * list lit) :=
   match solver_of_raw pinned raw with
-  | NewSome s => Some (ss_model (top_state (run pinned s h)))
+  | NewSome s => match run_track pinned s [] h with
+                 | Some (s', ds) => Some (ss_model (top_state s'), ds)
+                 | None => None
+                 end
   | _ => None
   end.
 
-Lemma d2_pinned : final_model true d2_cnf d2_hist = Some [Some true; None; Some false].
-Proof. vm_compute. reflexivity. Qed.
-Lemma d2_repaired : final_model false d2_cnf d2_hist = Some [Some true; Some false; Some false].
-Proof. vm_compute. reflexivity. Qed.
+(* the fix-point clause, as a boolean: no clause is falsified, none has exactly one unassigned
+   literal occurrence and no true literal *)
+Definition clause_quiet (m : pmodel) (c : clause) : bool :=
+  clause_sat m c || Nat.leb 2 (length (remaining m c)).
+Definition fixpoint_ok (cls : list clause) (m : pmodel) : bool := forallb (clause_quiet m) cls.
+
+Lemma d2_pinned :
+  final_state true d2_cnf d2_hist = Some ([Some true; None; Some false], [(0, true); (2, false)]) /\
+  fixpoint_ok (cnf_new d2_cnf) [Some true; None; Some false] = false.
+Proof. split; vm_compute; reflexivity. Qed.
+Lemma d2_repaired :
+  final_state false d2_cnf d2_hist = Some ([Some true; Some false; Some false], [(0, true); (2, false)]) /\
+  fixpoint_ok (cnf_new d2_cnf) [Some true; Some false; Some false] = true.
+Proof. split; vm_compute; reflexivity. Qed.
